@@ -1,0 +1,54 @@
+//! Verification hooks. This whole module exists only when the crate is built with `--cfg iggy_verif`;
+//! without the flag none of this code (nor any of its call sites) is compiled.
+use std::future::Future;
+use std::pin::Pin;
+use std::sync::atomic::{AtomicU32, Ordering};
+use std::sync::{Arc, Mutex};
+
+pub type PointFuture = Pin<Box<dyn Future<Output = ()> + Send>>;
+pub type PointHook = Arc<dyn Fn(&'static str, u64) -> PointFuture + Send + Sync>;
+pub type FsHook = Arc<dyn Fn(&'static str, &str) + Send + Sync>;
+
+static POINT_HOOK: Mutex<Option<PointHook>> = Mutex::new(None);
+static FS_HOOK: Mutex<Option<FsHook>> = Mutex::new(None);
+static APPEND_FAULTS: AtomicU32 = AtomicU32::new(0);
+
+/// Installs (or removes) the schedule-point hook: `point(name, k)` awaits the future it returns.
+pub fn set_point_hook(hook: Option<PointHook>) {
+    *POINT_HOOK.lock().unwrap() = hook;
+}
+
+/// A schedule point: a no-op unless a hook is installed.
+pub async fn point(name: &'static str, k: u64) {
+    let hook = POINT_HOOK.lock().unwrap().clone();
+    if let Some(hook) = hook {
+        hook(name, k).await;
+    }
+}
+
+/// Installs (or removes) the file-mutation hook, called after a write/create/delete has reached the file.
+pub fn set_fs_hook(hook: Option<FsHook>) {
+    *FS_HOOK.lock().unwrap() = hook;
+}
+
+pub fn fs_hook_installed() -> bool {
+    FS_HOOK.lock().unwrap().is_some()
+}
+
+pub fn fs_event(kind: &'static str, path: &str) {
+    let hook = FS_HOOK.lock().unwrap().clone();
+    if let Some(hook) = hook {
+        hook(kind, path);
+    }
+}
+
+/// Makes the next `n` persister appends fail with `CannotAppendToFile`.
+pub fn fail_next_appends(n: u32) {
+    APPEND_FAULTS.store(n, Ordering::SeqCst);
+}
+
+pub fn take_append_fault() -> bool {
+    APPEND_FAULTS
+        .fetch_update(Ordering::SeqCst, Ordering::SeqCst, |n| n.checked_sub(1))
+        .is_ok()
+}
